@@ -43,7 +43,9 @@ def href : SHref := .url [(true, false), (false, true), (true, false)] [.space] 
 def vd1 : SVarDecl :=
   { name := cps "c1", nameSp := [(true, false)], g1 := gc, g2 := gc, value := [idt "red" 7], g3 := g }
 def vd2 : SVarDecl := { name := cps "w", g2 := g, value := [num "0", sp, num "1"] }
-def vblk : SVarBlock := { lead := gc, items := [(vd1, gc)], last := some vd2 }
+/-- `c1` is declared twice (the second time in upper case): the later value takes the place of the first -/
+def vd3 : SVarDecl := { name := cps "c1", nameSp := [(true, false)], g2 := g, value := [num "2"] }
+def vblk : SVarBlock := { lead := gc, items := [(vd1, gc), (vd3, [])], last := some vd2 }
 def sheet : SSheet :=
   { charset := some (.dq, cps "utf-8"), lead := [sp1],
     imports := [(.import_ [(true, false)] g href g (some ([idt "print"], g)) (some (.dq, cps "imp", g)), [sp1])],
@@ -158,12 +160,17 @@ theorem vd2_wf : vd2.WF O :=
    ⟨core_of _ ⟨_, _, rfl, by decide⟩ ⟨[num "0", sp], _, rfl, by decide⟩, by decide, by decide⟩,
    ⟨_, _, rfl, by decide⟩, rfl⟩
 
+theorem vd3_wf : vd3.WF O :=
+  ⟨nameOk_of _ (by decide) ⟨_, _, rfl, by decide⟩,
+   ⟨core_of _ ⟨_, _, rfl, by decide⟩ ⟨[], _, rfl, by decide⟩, by decide, by decide⟩, ⟨_, _, rfl, by decide⟩, rfl⟩
+
 theorem vblk_wf : vblk.WF O := by
-  refine ⟨?_, ?_, by decide⟩
+  refine ⟨?_, ?_⟩
   · intro q hq
     simp only [vblk, List.mem_cons, List.mem_nil_iff, or_false] at hq
-    subst hq
-    exact vd1_wf
+    rcases hq with rfl | rfl
+    · exact vd1_wf
+    · exact vd3_wf
   · intro d hd
     simp only [vblk, Option.some.injEq] at hd
     subst hd
